@@ -13,10 +13,12 @@ VARIABLES pos, obs
 TLog == ndJsonDeserialize(TraceFile)
 ToSet(s) == {s[i] : i \in DOMAIN s}
 
-TIss == ("c1" :> "A") @@ ("c2" :> "A") @@ ("p1" :> "A")
-TRcv == ("c1" :> "B") @@ ("c2" :> "B") @@ ("p1" :> "B")
-TData == ("c1" :> TRUE) @@ ("c2" :> TRUE) @@ ("p1" :> FALSE)
-TSpice == ("c1" :> FALSE) @@ ("c2" :> TRUE) @@ ("p1" :> TRUE)
+TIss == ("c1" :> "A") @@ ("c2" :> "A") @@ ("p1" :> "A") @@ ("c3" :> "A")
+TRcv == ("c1" :> "B") @@ ("c2" :> "B") @@ ("p1" :> "B") @@ ("c3" :> "B")
+TData == ("c1" :> TRUE) @@ ("c2" :> TRUE) @@ ("p1" :> FALSE) @@ ("c3" :> TRUE)
+TSpice == ("c1" :> FALSE) @@ ("c2" :> TRUE) @@ ("p1" :> TRUE) @@ ("c3" :> TRUE)
+\* c3: a contract with spice whose data is one byte longer than the node accepts
+TOver == ("c1" :> FALSE) @@ ("c2" :> FALSE) @@ ("p1" :> FALSE) @@ ("c3" :> TRUE)
 
 OutOf(s, op) ==
     CASE op.op = "propose" -> ProposeOut(s, op.t, op.by, op.form)
